@@ -2,6 +2,7 @@
 C07 — Writer conformance (property sizes and section shapes of what py7zr's writer emits).
 -/
 import SevenZ.Lemmas.FilesInfo
+import SevenZ.Lemmas.SpecProps
 namespace SevenZ.C07
 open SevenZ SevenZ.Impl
 
@@ -24,6 +25,41 @@ theorem attrs_size_exact (slots : List (Slot Nat)) :
 /-- bit vectors have ⌈n/8⌉ bytes -/
 theorem bitvector_bytes (bs : List Bool) : (writeBools bs false).length = bitsToBytes bs.length :=
   writeBools_length bs
+
+/-- An independent reader accepts what the writer emits for the MTime property and recovers
+    exactly the written values, undefined entries staying undefined: the strict reader's
+    property loop (which insists that the Size field equals the bytes consumed, that the bit
+    vector has ⌈n/8⌉ bytes with zero padding, and that the external flag is 0) steps over the
+    block written for ANY definedness pattern and any 64-bit values. -/
+theorem strict_reader_accepts_times (fuel n ne : Nat) (seen : Bool) (files : List Spec.SFile) (slots : List (Slot Nat))
+    (hlen : slots.length = n) (hn : slots.length < 2 ^ 32)
+    (hv : ∀ s ∈ slots, ∀ t, s = .val t → t < 256 ^ 8) (rest : Bytes) :
+    Spec.sFileProps (fuel + 1) n files ne seen (timesBlock true 0x14 slots ++ rest) =
+      Spec.sFileProps fuel n (Spec.setList files (slots.map slotOpt) (fun f t => { f with mtime := t })) ne seen rest :=
+  spec_times_step fuel n ne seen files slots hlen hn hv rest
+
+/-- the same for the Attributes property -/
+theorem strict_reader_accepts_attrs (fuel n ne : Nat) (seen : Bool) (files : List Spec.SFile) (slots : List (Slot Nat))
+    (hlen : slots.length = n) (hn : slots.length < 2 ^ 32)
+    (hv : ∀ s ∈ slots, ∀ t, s = .val t → t < 256 ^ 4) (rest : Bytes) :
+    Spec.sFileProps (fuel + 1) n files ne seen (attrsBlock true slots ++ rest) =
+      Spec.sFileProps fuel n (Spec.setList files (slots.map slotOpt) (fun f t => { f with attr := t })) ne seen rest :=
+  spec_attrs_step fuel n ne seen files slots hlen hn hv rest
+
+/-- boolean vectors as written are read back by the strict reader (all-defined shortcut and
+    bit field with zero padding), for every vector -/
+theorem strict_reader_accepts_boolvector (bs : List Bool) (tail : Bytes) :
+    Spec.sBoolList bs.length "v" (writeBools bs true ++ tail) = .ok (bs, tail) :=
+  sBoolList_writeBools bs "v" tail
+
+/-- the pinned size computation (defect F1, repaired): with nine files of which one has a
+    time, the Size field is one byte short and the strict reader rejects the header -/
+theorem pinned_times_rejected_ce :
+    (Spec.sFileProps 5 9 (List.replicate 9 {}) 0 false
+      (timesBlock false 0x14 [.val 5, .undef, .undef, .undef, .undef, .undef, .undef, .undef, .undef] ++ [0])).toOption = none ∧
+    (Spec.sFileProps 5 9 (List.replicate 9 {}) 0 false
+      (timesBlock true 0x14 [.val 5, .undef, .undef, .undef, .undef, .undef, .undef, .undef, .undef] ++ [0])).toOption.isSome = true := by
+  decide +kernel
 
 example : timesBlock true 0x14 [.val 5, .undef] =
     [0x14, 11, 0, 0x80, 0, 5, 0, 0, 0, 0, 0, 0, 0] := by decide
